@@ -109,7 +109,8 @@ def judge_root(topo, style, ns, form, node, depths, res, case, order="mu", flavo
                 if not ur.ok or not same(ur.val, e):
                     res.violation(f"C07/unmarshal/root=cls-instance-with-raw-members/edges={kinds}/{'raises:' + ur.excname if not ur.ok else 'level-not-converted'}/{dclass}",
                                   f"unmarshal(C{node}, C{node}(**wire of depth {d})) = {short(ur.val if ur.ok else ur.exc, 160)} expected {short(e, 160)}; topology {topo.key()} [{style}]", dict(case, d=d))
-        if form == "cls" and d == 2 and isinstance(w, dict):
+        if form == "cls" and d == 2 and isinstance(w, dict) and topo.n <= 2 and (style in ("future", "eager") or sum(len(ls) for ls in topo.links) <= 2):
+            # (the same topologies and styles in both tiers: all topologies over <= 2 classes; the extra class styles on those with <= 2 links)
             # conformance at depth: a null in place of a node that sits in a list / dict / variadic-tuple edge is not a member of that
             # collection's element type - the call raises, or whatever it returns holds a converted node there, at every level
             for path, variant in _null_variants(w):
